@@ -192,6 +192,11 @@ func (j JSONCodec) UnmarshalField(data []byte, msg proto.Message, field protoref
 	if field.Message() != nil && field.Cardinality() != protoreflect.Repeated {
 		return j.Unmarshal(data, msg.ProtoReflect().Mutable(field).Message().Interface())
 	}
+	if !json.Valid(data) {
+		// The data is spliced into a JSON object below, so it must be exactly one JSON
+		// value: anything else could close the field and go on with other fields.
+		return fmt.Errorf("body is not a valid JSON value for field %s", field.Name())
+	}
 	// It would be nice if we could weave a bufferPool to here...
 	fieldName := j.fieldName(field)
 	buf := bytes.NewBuffer(make([]byte, 0, len(fieldName)+len(data)+3))
